@@ -7,7 +7,7 @@ from itertools import product
 import numpy as np
 
 from dask.base import tokenize
-from dask.utils import SerializableLock
+from dask.utils import SerializableLock, has_keyword
 
 from dask_array.io._base import IO
 from dask_array._core_utils import (
@@ -196,13 +196,20 @@ class FromArray(IO):
             # to apply the offset slices
             if region is not None:
                 keys = list(product([self._name], *(range(len(bds)) for bds in self.chunks)))
+                # As in graph_from_arraylike: asarray / lock are only passed to
+                # a getitem that takes them, and only when they matter; a
+                # custom getitem has the signature (a, index).
+                if has_keyword(getitem, "asarray") and has_keyword(getitem, "lock") and (not self.asarray_arg or lock):
+                    extra = (self.asarray_arg, lock)
+                else:
+                    extra = ()
                 if self.inline_array:
-                    dsk = {k: (getitem, self.array, slc, self.asarray_arg, lock) for k, slc in zip(keys, slices)}
+                    dsk = {k: (getitem, self.array, slc, *extra) for k, slc in zip(keys, slices)}
                 else:
                     # Put array in graph once, reference by key
                     arr_key = ("array-" + self._name,)
                     dsk = {arr_key: self.array}
-                    dsk.update({k: (getitem, arr_key, slc, self.asarray_arg, lock) for k, slc in zip(keys, slices)})
+                    dsk.update({k: (getitem, arr_key, slc, *extra) for k, slc in zip(keys, slices)})
             else:
                 dsk = graph_from_arraylike(
                     self.array,
